@@ -55,6 +55,9 @@ def check(run: Run) -> None:
         run.fail("C19.R4", fi, fi.node, "a path falls off the end of visit_Call and returns None: the node is deleted")
     for s, n in rets:
         t = strip_sites(fa.term_of(s.value, n)) if s.value is not None else ("const", None)
+        from ..terms import resolve_global_consts
+
+        t = resolve_global_consts(m, t)  # _SUM_STEP = "lambda acc,v: acc + v" is that string
         for alt in (t[1] if t[0] == "phi" else [t]):
             nc = name_call(alt)
             if nc is None:
